@@ -30,8 +30,12 @@ VARIABLES c, e,      \* case and event cursor
 Case == Rec[c]
 In   == Case.inp
 Ev   == Case.ev[e]
-X    == In.x
 Q    == In.q
+\* optional inputs: ks = embedding sizes to run (default 1..p), zr = number of training rows whose
+\* projection / reconstruction is logged (default n)
+Ks   == IF "ks" \in DOMAIN In THEN {In.ks[q] : q \in 1..Len(In.ks)} ELSE 1..In.p
+ZR   == IF "zr" \in DOMAIN In THEN Min2(In.zr, In.n) ELSE In.n
+X    == SubSeq(In.x, 1, ZR)
 
 TraceInit ==
   /\ c \in 1..Len(Rec) /\ e = 1
@@ -108,11 +112,11 @@ TOther ==
             ELSE "protocol")
 
 \* ---- acceptance ---------------------------------------------------------------------------
-AllFits == {<<k, w>> : k \in 1..ds.p, w \in BOOLEAN}
+AllFits == {<<ds.p, FALSE>>} \cup {<<k, FALSE>> : k \in {q \in Ks : q < ds.p}} \cup {<<k, TRUE>> : k \in Ks}
 
 Finish ==
   /\ e = Len(Case.ev) + 1
-  /\ IF mdl = <<>> /\ prj = <<>> /\ done = AllFits /\ nerr = 6
+  /\ IF mdl = <<>> /\ prj = <<>> /\ done = AllFits /\ Ks \subseteq 1..ds.p /\ nerr = 6
        THEN (IF used = {} THEN Ok(Case.id) ELSE \A d \in used : OkDev(Case.id, <<d>>))   \* one short line per deviation
        ELSE Fail(Case.id, <<e, "end", <<>>, "events-missing">>)
   /\ e' = e + 1 /\ UNCHANGED <<c, ds, st, full, mdl, prj, done, nerr, used>>
